@@ -54,7 +54,14 @@ pub fn o_metadata(input: &[u8], p: &P) -> Out {
 			}
 		}
 		let w = write_slp(&g).map_err(|f| e(&format!("write-failed:{}", f.key()), format!("writing failed: {}", f.describe())))?;
-		if w != input {
+		if p.class == "tail" {
+			// tolerated content after Game End inside the raw element is not kept by the writer, so the files differ
+			// there; the metadata element that follows it must still be reproduced byte for byte
+			let wg = domain(&w, "C16");
+			if wg.metadata_body != rg.metadata_body {
+				return Err(e("bytes-after-tail", "the written metadata element differs from the original one (replay with tolerated content after Game End)".into()));
+			}
+		} else if w != input {
 			return Err(e("bytes", format!("write(read(x)) != x at byte {:?}", first_diff(input, &w))));
 		}
 		// the JSON copy stored in .slpp
@@ -157,7 +164,7 @@ pub fn run() {
 	let s255: String = "ü".repeat(127) + "x"; // 255 bytes of UTF-8
 	let k255: String = "k".repeat(255);
 	let marker = "U S l { } \u{0} [".to_string();
-	cx.note("rule", json!("all trees of a bounded grammar, every key ORDER included (ordered selections of distinct keys): level-1 maps with <=3 entries over keys {\"\", a, é, lastFrame, 255-byte key} (quick: 4 keys) and 12 leaf values (strings \"\", x, 255 bytes of 2-byte UTF-8, text made of the marker bytes U S l { } NUL; ints 0, 1, -1, 127, 128, 65536, i32::MIN, i32::MAX); nested trees to depth 3 with <=2 entries per map; chains of depth 1..140 (beyond depth 100 the reader may refuse; whatever it accepts must make the whole trip); widths up to 40 entries; 100..255 sibling maps (at top level, at depth 3, next to a 100-deep chain); keys with a private meaning in JSON libraries or decoders (serde_json's RawValue / Number markers, __proto__, a leading or trailing U+FEFF, control characters, quotes) with 6 value kinds at 4 places; blocks of 77 KB and 260 KB; the same file with a declared raw length of 0; no metadata; empty metadata; each with Game End present, absent or doubled (rotating). Encoded by the harness's own UBJSON writer, embedded in a minimal replay. Oracle: Game.metadata == the tree with the same key order, write reproduces the input bytes, metadata.json inside the .slpp (own tar reader, order-preserving tokenizer) has the same keys in the same order and the same values, peppi::read gives the same tree; absent metadata => None / null. Every case is non-trivial (distinct tree)"));
+	cx.note("rule", json!("(tails) five trees behind tolerated content after Game End of 601 .. 196,608 bytes (unknown events), one and two Game Ends: tree, written metadata element and the .slpp copy as for the other cases; (trees) all trees of a bounded grammar, every key ORDER included (ordered selections of distinct keys): level-1 maps with <=3 entries over keys {\"\", a, é, lastFrame, 255-byte key} (quick: 4 keys) and 12 leaf values (strings \"\", x, 255 bytes of 2-byte UTF-8, text made of the marker bytes U S l { } NUL; ints 0, 1, -1, 127, 128, 65536, i32::MIN, i32::MAX); nested trees to depth 3 with <=2 entries per map; chains of depth 1..140 (beyond depth 100 the reader may refuse; whatever it accepts must make the whole trip); widths up to 40 entries; 100..255 sibling maps (at top level, at depth 3, next to a 100-deep chain); keys with a private meaning in JSON libraries or decoders (serde_json's RawValue / Number markers, __proto__, a leading or trailing U+FEFF, control characters, quotes) with 6 value kinds at 4 places; blocks of 77 KB and 260 KB; the same file with a declared raw length of 0; no metadata; empty metadata; each with Game End present, absent or doubled (rotating). Encoded by the harness's own UBJSON writer, embedded in a minimal replay. Oracle: Game.metadata == the tree with the same key order, write reproduces the input bytes, metadata.json inside the .slpp (own tar reader, order-preserving tokenizer) has the same keys in the same order and the same values, peppi::read gives the same tree; absent metadata => None / null. Every case is non-trivial (distinct tree)"));
 	cx.note("exhaustive", json!(true));
 	cx.note("assumptions", json!(["map nesting is bounded by the library (fix 1cec1ba) so that hostile nesting cannot overflow the stack; a refusal beyond depth 100 is accepted", "trees larger than the grammar (more entries per map, deeper nesting with wide maps) are not enumerated"]));
 	let quick = cx.quick();
@@ -234,6 +241,39 @@ pub fn run() {
 		let p = P { comp: (n % 3) as u8, class: if m.is_none() { "none" } else if depth(m.as_ref().unwrap()) > 100 { "deep-chain" } else { "tree" }, ..Default::default() };
 		eval_case("metadata", o_metadata, &bytes, &p, || short(&m), local);
 	});
+	// the metadata element behind tolerated content after Game End (unknown events: 600 bytes, 8 x 601 = 4,808 bytes,
+	// 3,000 x 2 = 6,000 bytes, 65,536 bytes, 3 x 65,536 bytes), one and two Game Ends: whatever a reader does with that
+	// content, the element after it is found at the declared end of raw
+	{
+		let tails: Vec<(&str, Vec<usize>)> = vec![("1x601", vec![2]), ("8x601", vec![2; 8]), ("3000x2", vec![0; 3000]), ("1x65536", vec![5]), ("3x65536", vec![5; 3]), ("7x601+2x2", vec![2, 2, 2, 0, 2, 2, 0, 2, 2])];
+		let trees: Vec<Option<Meta>> = vec![
+			None,
+			Some(vec![]),
+			Some(vec![("startAt".into(), MVal::Str("2020-01-01T00:00:00Z".into())), ("lastFrame".into(), MVal::Int(-123)), ("players".into(), MVal::Map(vec![("0".into(), MVal::Map(vec![("names".into(), MVal::Map(vec![("netplay".into(), MVal::Str("é".into()))]))]))]))]),
+			Some(vec![(k255.clone(), MVal::Str(s255.clone()))]),
+			Some((0..300).map(|i| (format!("key{:04}", i), MVal::Str("v".repeat(250)))).collect()),
+		];
+		let mut jobs = vec![];
+		for (ti, t) in trees.iter().enumerate() {
+			for (tl, ks) in &tails {
+				for ends in [1u8, 2] {
+					jobs.push((t.clone(), *tl, ks.clone(), ends, ti));
+				}
+			}
+		}
+		cx.note("tail_cases", json!(jobs.len()));
+		par_each(jobs.into_iter().enumerate(), |(n, (m, tl, ks, ends, _ti)), local| {
+			let mut a = base_replay((3, 16), vec![pc(0, false), pc(1, false)], 1);
+			a.metadata = m.clone();
+			a.ends = ends;
+			let doc = record(&a).doc;
+			let nb = doc.events.len();
+			let ins: Vec<(usize, usize)> = ks.iter().map(|k| (*k, nb)).collect();
+			let bytes = Arc::new(crate::checks::c08::with_unknown(&doc, &ins));
+			let p = P { comp: (n % 3) as u8, class: "tail", ..Default::default() };
+			eval_case("metadata", o_metadata, &bytes, &p, || format!("{} behind a tail of {} after {} Game End(s)", short(&m), tl, ends), local);
+		});
+	}
 	{
 		let uni = crate::gen::universe(cx.quick());
 		par_each(uni.into_iter().enumerate(), |(i, abs), local| {
